@@ -130,6 +130,28 @@ def run(chk):
                        ('2.0 observed-data', lambda: stix2.v20.ObservedData(first_observed=G.T1, last_observed=G.T1, number_observed=1, objects={'0': {'type': 'file', 'name': 'f', 'created': '2020-01-01T00:00:00Z'}}))):
             specials.append(('deep copy of a ' + nm, lambda mk=mk: _cp.deepcopy(mk()), False))
             specials.append(('new version of a deep copy of a ' + nm, lambda mk=mk: _cp.deepcopy(mk()).new_version(), False))
+        # custom types declared together with an extension-definition id (the library adds the entry itself)
+        from stix2 import registry as _reg
+        EA, EB = 'extension-definition--' + G.UUID2, 'extension-definition--' + G.UUID
+        if 'x-vf-c01-ext' not in _reg.STIX2_OBJ_MAPS['2.1']['objects']:
+            @stix2.v21.CustomObject('x-vf-c01-ext', [('x_p', stix2.properties.StringProperty()), ('name', stix2.properties.StringProperty())], extension_name=EA)
+            class _XA(object): pass
+        if 'x-vf-c01-ext-o' not in _reg.STIX2_OBJ_MAPS['2.1']['observables']:
+            @stix2.v21.CustomObservable('x-vf-c01-ext-o', [('x_p', stix2.properties.StringProperty()), ('name', stix2.properties.StringProperty())], id_contrib_props=['name'], extension_name=EB)
+            class _XB(object): pass
+        XA, XB = _reg.STIX2_OBJ_MAPS['2.1']['objects']['x-vf-c01-ext'], _reg.STIX2_OBJ_MAPS['2.1']['observables']['x-vf-c01-ext-o']
+        specials.append(('custom object with extension_name and an x_ property', lambda: XA(x_p='v', name='n'), False))
+        specials.append(('custom object with extension_name, further custom property', lambda: XA(x_p='v', name='n', x_zz=1, allow_custom=True), True))
+        specials.append(('custom object with extension_name, own extensions given', lambda: XA(x_p='v', extensions={'x-other-ext': {'a': 1}}, allow_custom=True), True))
+        specials.append(('custom observable with extension_name', lambda: XB(x_p='v', name='n'), False))
+        specials.append(('bundle of a custom object with extension_name', lambda: stix2.v21.Bundle(XA(x_p='v', name='n')), False))
+        # STIX 2.0 observed-data whose members refer to each other, keys not in ascending order and more than ten members ("10" sorts before "2" as text)
+        od_kw = dict(first_observed=G.T1, last_observed=G.T1, number_observed=1)
+        specials.append(('observed-data: member keys in descending order of dependency', lambda: stix2.v20.ObservedData(objects={'1': {'type': 'directory', 'path': '/x'}, '0': {'type': 'file', 'name': 'f', 'parent_directory_ref': '1'}}, **od_kw), False))
+        many = {str(i): {'type': 'ipv4-addr', 'value': f'10.0.0.{i}'} for i in range(2, 10)}
+        many['10'] = {'type': 'network-traffic', 'protocols': ['tcp'], 'src_ref': '2', 'dst_ref': '9'}; many['11'] = {'type': 'network-traffic', 'protocols': ['udp'], 'src_ref': '3', 'encapsulated_by_ref': '10'}
+        specials.append(('observed-data: twelve members, later ones refer to earlier ones', lambda: stix2.v20.ObservedData(objects=copy.deepcopy(many), **od_kw), False))
+        specials.append(('observed-data: forward references', lambda: stix2.v20.ObservedData(objects={'0': {'type': 'email-message', 'is_multipart': False, 'from_ref': '5'}, '5': {'type': 'email-addr', 'value': 'a@b.c'}}, **od_kw), False))
         specials.append(('observed-data with embedded objects (2.0)', lambda: stix2.v20.ObservedData(first_observed=G.T1, last_observed=G.T1, number_observed=1, objects={'0': {'type': 'file', 'name': 'f', 'size': 0}}), False))
         specials.append(('float property 1e21 / 0.1', lambda: stix2.v21.Location(latitude=0.1, longitude=-0.0, precision=1e21), False))
         specials.append(('nested extension with floats', lambda: stix2.v21.File(name='f', extensions={'raster-image-ext': {'exif_tags': {'a': 1.5, 'b': [1e-7, 2**53 + 1]}}}), False))
@@ -146,6 +168,10 @@ def run(chk):
         except Exception as ex: return (f'roundtrip#own output parses:{name}', f'{name}: cannot parse own output: {type(ex).__name__}: {str(ex)[:120]}', {'text': text[:300]})
         if type(back) is not type(o) or back != o: return (f'roundtrip#equal object:{name}', f'{name}: parse(serialize(o)) != o; {text[:200]} vs {back.serialize()[:200]}', {})
         if back.serialize() != text: return (f'roundtrip#byte-identical second serialization:{name}', f'{name}: {text[:160]} then {back.serialize()[:160]}', {})
+        for opts in ({'pretty': True}, {'sort_keys': True}, {'sort_keys': True, 'indent': 2}, {'pretty': True, 'include_optional_defaults': True}, {'include_optional_defaults': True, 'sort_keys': True}):
+            try: t2 = o.serialize(**opts); b2 = stix2.parse(t2, allow_custom=custom)
+            except Exception as ex: return (f'options#own output parses under every option set:{name}', f'{name}: serialize({opts}) cannot be parsed back: {type(ex).__name__}: {str(ex)[:120]}', {'options': opts})
+            if b2 != o: return (f'options#same object under every option set:{name}', f'{name}: parse(serialize({opts})) != o', {'options': opts})
     chk.bounded('special shapes', specials, check_special, classify=lambda c: c[0], bound=f'{len(specials)} shapes from the property text (re-used timestamps, year 999, empty and mixed bundles, defaulted marking-definition timestamps, floats; datetime inputs with 8 sub-second classes, aware and naive, on 6 timestamp-carrying constructors)')
 
     # ---- lookups must not be remembered across a later registration
